@@ -923,6 +923,11 @@ def emit_to(w, text, TB):
     wider than the target it is statically dead code.  Such digit types get a second copy of the entry whose dead
     loop carries only `decreases` (no invariant, hence no vacuity canary that could never fire); the digit types
     for which the loop is live get the full annotation."""
+    # DISABLED: an isolated loop body is verified without the (infeasible) path condition, so the proof
+    # blocks inside the dead loop need the invariant anyway; the canary of that loop cannot fire for the digit
+    # types wider than the target (statically dead code) and does fire for the narrower ones
+    w(text)
+    return
     dead = [d for d in ('u64', 'u32', 'u16', 'u8') if DBITS[d] > TB]
     live = [d for d in ('u64', 'u32', 'u16', 'u8') if DBITS[d] <= TB]
     if not dead:
